@@ -3,7 +3,7 @@
 From Coq Require Import ZArith List.
 From mathcomp Require Import all_ssreflect all_algebra.
 From SV Require Import Names Rep Complex Homology ListMat SnfCount Rank Betti EulerP Gen RepInv Shapes Incidence Closed ClosedReach Components Betti0 RelabelAll.
-From SV Require VInv SameFamily RankPerm SameBetti.
+From SV Require VInv SameFamily RankPerm SameBetti World JsonBetti.
 Import ListNotations.
 
 (* the elimination of _reduceBoundaries, on every 0/1 matrix of every shape, ends in the partial
@@ -102,6 +102,11 @@ Theorem C06_a_copy_has_the_betti_numbers_of_its_source :
   forall hp src uid hp' c k, VInv.vinv src -> copy_new hp (view_of src) uid = (hp', c, Ok tt) -> betti1 c k = betti1 src k.
 Proof. exact SameBetti.copy_same_betti. Qed.
 Print Assumptions C06_a_copy_has_the_betti_numbers_of_its_source.
+Theorem C06_the_decoded_encoding_has_the_betti_numbers_of_the_complex :
+  forall src hp0 hp uid hp' r' k, VInv.vinv src ->
+  World.decode hp (empty_rep uid) (World.encode_view hp0 (view_of src)) = (hp', r', Ok tt) -> betti1 r' k = betti1 src k.
+Proof. exact JsonBetti.json_same_betti. Qed.
+Print Assumptions C06_the_decoded_encoding_has_the_betti_numbers_of_the_complex.
 Theorem C06_rank_invariant_under_reindexing :
   forall m n (f g : nat -> nat -> bool) (sg tau : nat -> nat),
   (forall i, (i < m)%N -> (sg i < m)%N) -> (forall i i', (i < m)%N -> (i' < m)%N -> sg i = sg i' -> i = i') ->
